@@ -62,7 +62,11 @@ def make_points(spec, n):
   d = spec["d"]
   if spec.get("kind") == "grid":
     return rs.randint(0, 3, size=(n, d)).astype(float)
-  return rs.randn(n, d) * spec.get("scale", 1.0)
+  P = rs.randn(n, d) * spec.get("scale", 1.0)
+  if spec.get("kind") == "offset":
+    # map coordinates: a common offset a million times the spacing of the points
+    P = np.round(P * 100.0) / 100.0 + float(spec.get("offset", 5.4e6))
+  return P
 
 
 def gen_plan(seed, tier):
@@ -91,7 +95,7 @@ def gen_plan(seed, tier):
     else:
       calls.append(dict(kind="knn", k_genuine=r.randint(1, 6), k_impostor=r.randint(1, 6),
                         points=dict(seed=r.randrange(10**6), d=r.randint(1, 4),
-                                    kind=r.choice(["cont", "grid"]))))
+                                    kind=r.choice(["cont", "cont", "grid", "grid", "offset"]))))
   shared = substream(seed, "c07-shared").random() < 0.5
   if shared:
     rl = substream(seed, "c07-relabel")
@@ -321,12 +325,15 @@ def check_knn(y, call, outcome, out, wl, cov, info):
                         % (a, bs, y[bs].tolist()))
       if np.any(y[cs_] == lab):
         raise Violation("knn_impostor_sound", "class", "impostor of %d has the same class" % a)
+      # neighbour searches evaluate |x|^2 - 2 x.y + |y|^2 in floating point: candidates whose
+      # squared distances differ by less than a few eps * max |x|^2 are ties for them
+      sq_tol = 64 * np.finfo(float).eps * float((X ** 2).sum(axis=1).max())
       ds = np.sort(np.linalg.norm(X[same[same != a]] - X[a], axis=1))
-      if np.any(np.linalg.norm(X[bs] - X[a], axis=1) > ds[kg_e - 1] + scale):
+      if np.any(np.linalg.norm(X[bs] - X[a], axis=1) ** 2 > (ds[kg_e - 1] + scale) ** 2 + sq_tol):
         raise Violation("knn_genuine_nearest", "distance",
                         "a genuine neighbour of %d is not among its %d nearest same-class points" % (a, kg_e))
       do = np.sort(np.linalg.norm(X[other] - X[a], axis=1))
-      if np.any(np.linalg.norm(X[cs_] - X[a], axis=1) > do[ki_e - 1] + scale):
+      if np.any(np.linalg.norm(X[cs_] - X[a], axis=1) ** 2 > (do[ki_e - 1] + scale) ** 2 + sq_tol):
         raise Violation("knn_impostor_nearest", "distance",
                         "an impostor of %d is not among its %d nearest other-class points" % (a, ki_e))
   if len(T) != expected:
